@@ -162,6 +162,9 @@ def r2_truncate(ctx, repo):
     sk = _scalar_key(fn)
     if sk:
         problems.append(("violated", sk))
+    um = _unrecorded_membership(fn)
+    if um:
+        problems.append(("violated", um))
     viol = [m for k, m in problems if k == "violated"]
     inc = [m for k, m in problems if k == "inconclusive"]
     if viol:
@@ -170,6 +173,36 @@ def r2_truncate(ctx, repo):
         ctx.inconclusive("R2", C, where(mod, fn), "; ".join(inc))
     else:
         ctx.holds("R2", C, where(mod, fn), "result = sorted(set(population), by (front asc, crowding desc))[:size]")
+
+
+def _unrecorded_membership(fn):
+    """for x in ITEMS: if x not in SEEN: OUT.append(x) - and x is not put into SEEN: the filter knows what was taken before
+    the loop, not what the loop itself has taken, so two equal designs among ITEMS are both admitted"""
+    aliases = {(access_path(a.targets[0]), access_path(a.value)) for a in ast.walk(fn) if isinstance(a, ast.Assign) and len(a.targets) == 1
+               and access_path(a.targets[0]) and isinstance(a.value, ast.Name)}
+    for lp in [n for n in ast.walk(fn) if isinstance(n, ast.For) and isinstance(n.target, ast.Name)]:
+        x = lp.target.id
+        for st in [n for n in ast.walk(lp) if isinstance(n, ast.If)]:
+            t = st.test
+            if not (isinstance(t, ast.Compare) and len(t.ops) == 1 and isinstance(t.ops[0], ast.NotIn) and access_path(t.left) == x and isinstance(t.comparators[0], ast.Name)):
+                continue
+            seen = t.comparators[0].id
+            outs = [c for b in st.body for c in ast.walk(b) if isinstance(c, ast.Call) and isinstance(c.func, ast.Attribute) and c.func.attr == "append"
+                    and c.args and access_path(c.args[0]) == x and isinstance(c.func.value, ast.Name)]
+            if not outs:
+                continue
+            out = outs[0].func.value.id
+            if out == seen or (out, seen) in aliases or (seen, out) in aliases:
+                continue
+            recorded = any(isinstance(c, ast.Call) and isinstance(c.func, ast.Attribute) and c.func.attr in ("add", "append", "update", "extend", "setdefault")
+                           and access_path(c.func.value) == seen for b in st.body for c in ast.walk(b)) or \
+                any(isinstance(a, (ast.Assign, ast.AugAssign)) and any(isinstance(tg, ast.Subscript) and access_path(tg.value) == seen
+                                                                         for tg in (a.targets if isinstance(a, ast.Assign) else [a.target])) for b in st.body for a in ast.walk(b))
+            if not recorded:
+                return ("the loop over %s admits a design when it is `not in %s` but does not put it into `%s`: the test sees what was kept before this loop, not what this loop "
+                        "has admitted, so of two equal designs in %s both are appended to `%s` - a repeated design survives and a distinct one is cut"
+                        % (text(lp.iter), seen, seen, text(lp.iter), out))
+    return None
 
 
 def _scalar_key(fn):
